@@ -473,7 +473,7 @@ func checkNoInPlaceWritesToInputs(c *Ctx, r *Report, clause string, pkgPrefixes 
 					return true, "parameter " + x.Name()
 				}
 			}
-			for i := 0; base != nil && i < 6; i++ {
+			for i := 0; base != nil && i < 16; i++ {
 				switch b := base.(type) {
 				case *ssa.Parameter:
 					return true, "a field of " + b.Name()
